@@ -18,8 +18,8 @@ LEVEL = "exploration"
 EXHAUSTIVE = {"quick": True, "thorough": True}
 RULE = (
     "a catalogue of 40 parse requests (format x token line x leniency; successful, failing with each documented error, "
-    "with and without options) is drawn from 13 formats x 22 lines; every ordered pair (quick) / triple (thorough) of "
-    "requests is issued to one parser instance, plus seeded random histories of length 4-6 over the whole 572-request "
+    "with and without options) is drawn from 15 formats x 22 lines; every ordered pair (quick) / triple (thorough) of "
+    "requests is issued to one parser instance, plus seeded random histories of length 4-6 over the whole 660-request "
     "pool and over C01-generated lines, plus histories through Config.set_args_parser / Command.parse shared by two "
     "commands. Each outcome is compared with a pristine-world reference; argv lists, RawArgs and format listings are "
     "snapshotted around every call; earlier results are re-read at the end of the history. non-trivial = history with "
@@ -40,6 +40,13 @@ LINES = [
 
 
 def listing(fmt):
+    try:
+        return _listing(fmt)
+    except Exception as e:  # a format that can no longer be listed has been altered
+        return ("unlistable", type(e).__name__, str(e)[:120])
+
+
+def _listing(fmt):
     out = []
     for ib in (True, False):
         out.append(tuple((c.string, tuple(c.aliases)) for c in fmt.get_command_names(ib)))
